@@ -139,7 +139,19 @@ type secretRec struct {
 
 var secrets []secretRec
 
+// Natively the value is extended by a unique marker, so that its occurrence anywhere (in any
+// encoding that keeps ASCII letters) is detectable without false positives from short values.
 func Secret(s string, class int) string {
+	if s == "" {
+		return s
+	}
+	marker := "zqS" + strconv.Itoa(len(secrets)) + "Sqz"
+	secrets = append(secrets, secretRec{marker, class})
+	return s + marker
+}
+
+// SecretExact registers a long, already unique value (a real JWT) as it is.
+func SecretExact(s string, class int) string {
 	if s != "" {
 		secrets = append(secrets, secretRec{s, class})
 	}
